@@ -1,18 +1,20 @@
 //go:build verif
 
 // c04: failover. Two families of cases:
-//  - "pure": the real core.RetryHandler.ExecuteWithRetry with a scripted proxyFunc (the attempt
-//    outcome oracle of the model), a scripted selector (the selection oracle) and a recording
-//    ResponseWriter / discovery stub: the implementation's *event trace* is compared with the model's,
-//    exhaustively over outcome assignments x selection orders, incl. duplicate endpoint names.
-//  - "stack": the production wiring with scripted backends: {ok, refuse, reset0, open, close0, garbage}
-//    on up to 3 endpoints x 3 balancers x 2 engines, plus a follow-up request.
+//   - "pure": the real core.RetryHandler.ExecuteWithRetry with a scripted proxyFunc (the attempt
+//     outcome oracle of the model), a scripted selector (the selection oracle) and a recording
+//     ResponseWriter / discovery stub: the implementation's *event trace* is compared with the model's,
+//     exhaustively over outcome assignments x selection orders, incl. duplicate endpoint names.
+//   - "stack": the production wiring with scripted backends: {ok, refuse, reset0, open, close0, garbage}
+//     on up to 3 endpoints x 3 balancers x 2 engines, plus a follow-up request.
 package main
 
 import (
 	"context"
 	"errors"
 	"fmt"
+	"github.com/thushan/olla/internal/config"
+	"github.com/thushan/olla/internal/zz_verif/anth"
 	"net"
 	"net/http"
 	"net/http/httptest"
@@ -72,7 +74,7 @@ type disc struct {
 
 func (d *disc) GetEndpoints(context.Context) ([]*domain.Endpoint, error)        { return nil, nil }
 func (d *disc) GetHealthyEndpoints(context.Context) ([]*domain.Endpoint, error) { return nil, nil }
-func (d *disc) RefreshEndpoints(context.Context) error                           { return nil }
+func (d *disc) RefreshEndpoints(context.Context) error                          { return nil }
 func (d *disc) UpdateEndpointStatus(_ context.Context, e *domain.Endpoint) error {
 	if e.Status == domain.StatusOffline {
 		d.r.add("markOffline", d.urls[e.URLString], 0)
@@ -278,6 +280,59 @@ func stackScenarios(tier string, r *vlib.Rng) []*scen.Scenario {
 	return out
 }
 
+// translationFailover: POST /olla/anthropic/v1/messages, passthrough disabled, two endpoints of the given types; the
+// one with the higher priority refuses connections, the other answers. Four requests (which candidate comes first in
+// the handler's list is up to map iteration order), the refusing endpoint readmitted before each.
+func translationFailover(engine string, ts [2]string) map[string]any {
+	var bes []*stack.Backend
+	var eps []stack.EP
+	for i, t := range ts {
+		b := stack.NewBackend(string(rune('A' + i)))
+		name := b.Name
+		b.SetScript(func(_ int, sn *stack.Seen) stack.Behaviour { return anth.OKAnswer(name, sn) })
+		bes = append(bes, b)
+		eps = append(eps, stack.EP{Name: b.Name, Type: t, Priority: 300 - 100*i, Backend: b})
+	}
+	defer func() {
+		for _, b := range bes {
+			b.Close()
+		}
+	}()
+	s, err := stack.Start(stack.Opts{Engine: engine, Balancer: "priority", EPs: eps, Mutate: func(cfg *config.Config) {
+		cfg.Translators.Anthropic.Enabled = true
+		cfg.Translators.Anthropic.PassthroughEnabled = false
+	}})
+	if err != nil {
+		return map[string]any{"start_err": err.Error()}
+	}
+	defer s.Stop()
+	for _, b := range bes {
+		if err := anth.Register(s, b, []string{anth.Model}); err != nil {
+			return map[string]any{"start_err": "register models: " + err.Error()}
+		}
+	}
+	deadline := time.Now().Add(4 * time.Second)
+	for !anth.Routable(s, bes, anth.Model) {
+		if time.Now().After(deadline) {
+			return map[string]any{"start_err": "model catalogue did not settle"}
+		}
+		time.Sleep(5 * time.Millisecond)
+	}
+	bes[0].Refuse()
+	var reqs []map[string]any
+	for k := 0; k < 4; k++ { // fewer than the olla engine's breaker threshold: the refusing endpoint is tried, not skipped
+		s.SetStatus("A", domain.StatusHealthy)
+		s.SetStatus("B", domain.StatusHealthy)
+		for _, b := range bes {
+			b.Taken()
+		}
+		body := anth.AnthropicBody(anth.Model, k%2 == 1, fmt.Sprintf("x%d", k))
+		r := stack.Do(s.Addr, stack.Request("POST", "/olla/anthropic/v1/messages", s.Addr, [][2]string{{"Content-Type", "application/json"}, {"anthropic-version", "2023-06-01"}}, body, false), 3*time.Second)
+		reqs = append(reqs, map[string]any{"status": r.Status, "err": r.Err, "working_backend_requests": len(bes[1].Taken()), "offline_after": s.Statuses()["A"] == "offline"})
+	}
+	return map[string]any{"reqs": reqs}
+}
+
 func main() {
 	tier := vlib.Tier()
 	r := vlib.NewRng(vlib.Seed())
@@ -337,6 +392,14 @@ func main() {
 	for i, sc := range scs {
 		c.Count("stack." + sc.Engine + "." + sc.Balancer)
 		c.Emit(map[string]any{"kind": "stack", "scenario": sc, "impl": out[i]})
+	}
+	// the same promise on the Anthropic translation route: mixed deployments (endpoint types with and without native
+	// Anthropic support), passthrough disabled, the preferred endpoint refuses connections, the other one works
+	for _, engine := range []string{"sherpa", "olla"} {
+		for _, ts := range [][2]string{{"vllm", "sglang"}, {"sglang", "vllm"}, {"ollama", "openai-compatible"}, {"lm-studio", "lemonade"}, {"vllm", "ollama"}} {
+			c.Emit(map[string]any{"kind": "xroute", "engine": engine, "types": ts, "impl": translationFailover(engine, ts)})
+			c.Count("xroute." + engine)
+		}
 	}
 	c.Close(map[string]any{"exhaustive": true,
 		"exhaustive_note": "pure: all 6^n outcome assignments x n! selection orders for n<=3 with unique and duplicate/empty endpoint names; stack: all assignments of {ok,refuse,reset0,open,close0,garbage} to n<=2 endpoints x 3 balancers x 2 engines (n=3: asserted kinds on priority exhaustive, rest sampled in quick; all in thorough)"})
